@@ -338,6 +338,9 @@ pub fn render(t: &mut Tape, plan: &FlatPlan, core_only: bool) -> E2Case {
     if has_from {
         facts.push("from-requested".into());
     }
+    if has_into {
+        facts.push("into-requested".into());
+    }
     if !plan.s_named {
         facts.push("S:tuple".into());
     }
